@@ -1865,11 +1865,13 @@ class Interp:
     def e_FormattedValue(self, e, env):
         # message rendering is not modelled (DESIGN 2.3): sub-expressions are evaluated, the
         # text is produced natively where possible and is opaque otherwise
+        # an exception raised by the sub-expression itself (attribute of None, missing key, ...) is the f-string's exception in
+        # python and propagates; only what the engine cannot model is rendered as opaque text
         try:
             v = self.eval(e.value, env)
         except _Signal:
             raise
-        except BaseException:
+        except EngineError:
             return "<opaque>"
         spec = self.eval(e.format_spec, env) if e.format_spec is not None else ""
         try:
